@@ -820,6 +820,9 @@ func (fc *fileCtx) selectStmt(s *ast.SelectStmt, label *ast.LabeledStmt) ast.Stm
 	if def != nil {
 		bodies = append(bodies, &ast.CaseClause{List: []ast.Expr{lit(len(cases))}, Body: def.Body})
 	}
+	// an unreachable default keeps a select that ended its function (every case returns) a terminating statement
+	bodies = append(bodies, &ast.CaseClause{Body: []ast.Stmt{&ast.ExprStmt{X: &ast.CallExpr{Fun: ast.NewIdent("panic"),
+		Args: []ast.Expr{&ast.BasicLit{Kind: token.STRING, Value: `"simgen: select without a chosen case"`}}}}}})
 	var sw ast.Stmt = &ast.SwitchStmt{Tag: sel, Body: &ast.BlockStmt{List: bodies}}
 	sw = wrapLabel(label, sw)
 	return &ast.BlockStmt{List: append(pre, sw)}
